@@ -31,7 +31,12 @@ def r1_confinement(ctx):
     ctx.rule(rid, "capacity / entry_list / entry_map of HashTable are touched only by HashTable's own methods", floor=3)
     prog = ctx.prog
     users = {"capacity": set(), "entry_list": set(), "entry_map": set()}
-    for k, f in prog.fns.items():
+    # (the functions as written: a method of HashTable that is new to the reviewed tree is spliced into its callers
+    # for the other rules, but who touches the fields is a question about the source)
+    raw = getattr(prog, "raw_fns", {})
+    every = {k: raw.get(k, f) for k, f in prog.fns.items()}
+    every.update(getattr(prog, "helper_bodies", {}))
+    for k, f in every.items():
         if f.get("test") or f["kind"] == "promoted":
             continue
         for b in f["blocks"]:
@@ -88,6 +93,8 @@ def _put_table(ctx, rid, f):
             return "absent"
         if t[0] == "call" and t[1].endswith("Option::is_some") and about_key(t):
             return "present"
+        if t[0] == "discr" and any(x[0] == "call" and x[1].endswith("HashMap::entry") for x in [t[1]] + list(leaves(t[1]))):
+            return ("present", True)        # Entry: Occupied = 0, Vacant = 1
         if t[0] == "discr" and about_key(t[1]):
             return "present"        # Option: None = 0, Some = 1
         if t[0] == "call" and t[1].endswith("HashMap::contains_key"):
@@ -216,14 +223,21 @@ def r3_others(ctx):
 def r4_wrapper(ctx):
     rid = "C18.R4"
     ctx.rule(rid, "HashMapTranspositionTable delegates every TranspositionTable method to the like-named HashTable method with its arguments unchanged", floor=5)
+    raw = getattr(ctx.prog, "raw_fns", {})
     for m in ("clear", "put", "get", "len", "load_factor"):
         f = ctx.fn(rid, WR + m)
+        f = raw.get(WR + m, f)
         try:
             ps = returning_paths(f)
         except NotLoopFree:
             ps = []
         calls = [t for b, t in ps[0].calls] if len(ps) == 1 else []
         hcalls = [t for t in calls if t[0] == "call" and t[1].startswith(HTM)]
+        if len(ps) == 1 and len(hcalls) == 1 and hcalls[0][1] != HTM + m and hcalls[0][1] in getattr(ctx.prog, "helper_bodies", {}):
+            # delegates to a HashTable method that is new to the reviewed tree (a rename with a changed signature):
+            # what that method does is judged where it was spliced in, not by its name
+            ctx.lost(rid, "wrapper method %s delegates to the new method %s" % (m, hcalls[0][1].rsplit("::", 1)[-1]))
+            continue
         ok = len(ps) == 1 and len(hcalls) == 1 and hcalls[0][1] == HTM + m
         if ok:
             a = hcalls[0][2]
